@@ -296,7 +296,7 @@ def domain(pname, rng, method=None):
         v = r.choice([0, 1, 1, 2, 3, 5, -1] if pname == "num_concurrent" else [0, 1, 1, 2, 3, 5, -1, 10])
         return v, str(v)
     if pname in ("group_name", "msg"):
-        v = r.choice(["g1", "g2", "grp", "apply-work-group-0", "x_y", "G", "7", "3", "10", "[1]", "abc", "one", "1.5", "0x", "1,2", "start-group-0", "", "a\tb", "x\u00a0y", "ü\u3000z"])
+        v = r.choice(["g1", "g2", "grp", "apply-work-group-0", "x_y", "G", "7", "3", "10", "[1]", "abc", "one", "1.5", "0x", "1,2", "None", "True", "start-group-0", "", "a\tb", "x\u00a0y", "ü\u3000z"])
         return v, v
     if pname == "value":
         v = r.choice([0, 1, 2, 3, 5, 7, 10, -1, -7])
@@ -306,6 +306,8 @@ def domain(pname, rng, method=None):
 
 def domain_by_annotation(param, rng):
     ann = str(param.annotation)
+    if "Callable" in ann:
+        return domain("end_callback", rng)  # a dotted path to a function
     if "int" in ann:
         v = rng.choice([0, 1, 2, 3, 7])
         return v, str(v)
